@@ -115,3 +115,68 @@ Definition check_bdb (c : bdb_case) : N :=
   code (sortedb db && list_eqb res_eqb obs rs && smap_eqb after (apply_writes batch db))
        (list_eqb res_eqb obs (map (bdb_read_spec db pfx) ops)
         && smap_eqb after (s_map (fst (spec_run (spec_init db pfx) (flat_map bop_as_op ops))))).
+
+(* ---- continued use of the same Database objects after Commit (the cache is NOT reset by Commit):
+   (root, db, ops1 with results, (added, updated, deleted, dump after commit 1),
+    ops2 with results, (added, updated, deleted, dump after commit 2, dump after RevertDiff of the second diff)) *)
+Definition ops2_case : Type :=
+  (key * smap * list (op * res) * (list key * list kv * list kv * smap)
+   * list (op * res) * commit_obs)%type.
+
+Definition diff_obs_eqb (a : list key) (u dl : list kv) (df : diff) : bool :=
+  list_eqb keqb a (sort_keys (d_added df)) && smap_eqb u (sort_kv (d_updated df)) && smap_eqb dl (sort_kv (d_deleted df)).
+
+Definition check_ops2 (c : ops2_case) : N :=
+  let '(root, db, ors1, (a1, u1, dl1, after1), ors2, (a2, u2, dl2, after2, reverted2)) := c in
+  let '(d1, rs1) := run db (init_state root) (map fst ors1) in
+  let '(ws1, df1) := db_Commit d1 in
+  let m1 := apply_writes ws1 db in
+  (* the same cache goes on, over the store as it is now *)
+  let '(d2, rs2) := run m1 d1 (map fst ors2) in
+  let '(ws2, df2) := db_Commit d2 in
+  let m2 := apply_writes ws2 m1 in
+  let '(s1, srs1) := spec_run (spec_init db root) (map fst ors1) in
+  let '(s2, srs2) := spec_run s1 (map fst ors2) in
+  let agree_model :=
+    sortedb db && list_eqb res_eqb (map snd ors1) rs1 && diff_obs_eqb a1 u1 dl1 df1 && smap_eqb after1 m1
+    && list_eqb res_eqb (map snd ors2) rs2 && diff_obs_eqb a2 u2 dl2 df2 && smap_eqb after2 m2
+    && smap_eqb reverted2 (apply_writes (revert_writes df2) m2) in
+  (* oracle: reads keep being those of the one map with all staged writes applied; each Commit writes that map; the diff
+     of a store that was not re-created is cumulative: reverting the second diff gives back the ORIGINAL database *)
+  let agree_spec :=
+    list_eqb res_eqb (map snd ors1) srs1 && smap_eqb after1 (s_map s1)
+    && list_eqb res_eqb (map snd ors2) srs2 && smap_eqb after2 (s_map s2) && smap_eqb reverted2 db in
+  code agree_model agree_spec.
+
+(* ---- two diffdb.Database roots (own caches) over one store, used interleaved, committed one after the other:
+   (root0, root1, db, operations tagged with the root, dump after commit of root 0, dump after commit of root 1) *)
+Definition two_case : Type := (key * key * smap * list (N * (op * res)) * smap * smap)%type.
+
+Definition check_two (c : two_case) : N :=
+  let '(r0, r1, db, tors, after0, after1) := c in
+  let sel (i : N) := map snd (filter (fun x => fst x =? i) tors) in
+  let '(d0, rs0) := run db (init_state r0) (map fst (sel 0)) in
+  let '(d1, rs1) := run db (init_state r1) (map fst (sel 1)) in
+  let m0 := apply_writes (fst (db_Commit d0)) db in
+  let m1 := apply_writes (fst (db_Commit d1)) m0 in
+  let '(s0, srs0) := spec_run (spec_init db r0) (map fst (sel 0)) in
+  let '(s1, srs1) := spec_run (spec_init db r1) (map fst (sel 1)) in
+  let disjoint := negb (is_prefix r0 r1) && negb (is_prefix r1 r0) in
+  let under (p : key) (m : smap) := filter (fun x => is_prefix p (fst x)) m in
+  let outside (p : key) (m : smap) := filter (fun x => negb (is_prefix p (fst x))) m in
+  let agree_model :=
+    sortedb db && list_eqb res_eqb (map snd (sel 0)) rs0 && list_eqb res_eqb (map snd (sel 1)) rs1
+    && smap_eqb after0 m0 && smap_eqb after1 m1 in
+  (* oracle: nothing reaches the store before the commits, so every read is the one of the root's own staged map; with
+     disjoint key spaces the final database is the union of both staged maps *)
+  let agree_spec :=
+    list_eqb res_eqb (map snd (sel 0)) srs0 && list_eqb res_eqb (map snd (sel 1)) srs1 && smap_eqb after0 (s_map s0)
+    && (if disjoint then smap_eqb (under r1 after1) (under r1 (s_map s1)) && smap_eqb (outside r1 after1) (outside r1 (s_map s0))
+        else true) in
+  code agree_model agree_spec.
+
+(* 0 = the part of an ops2 case before the first Commit satisfies the oracle (so a failure is about continued use) *)
+Definition ops2_phase1 (c : ops2_case) : N :=
+  let '(root, db, ors1, (a1, u1, dl1, after1), _, _) := c in
+  let '(s1, srs1) := spec_run (spec_init db root) (map fst ors1) in
+  if list_eqb res_eqb (map snd ors1) srs1 && smap_eqb after1 (s_map s1) then 0 else 1.
